@@ -27,8 +27,47 @@ def digest_for_seed(prop, seed):
     return gen_run(seed).digest()
 
 
+def scale_run(K, off, mode, seed):
+    """Scale: a backlog of hundreds / a thousand items, long streaks of takes that never have to wait, and a consumer
+    cancellation placed at each of the first handles of the K-th consecutive take (K around powers of two and ten)."""
+    rng = random.Random(seed)
+    steps = []
+    lab = 0
+    if mode == "backlog":
+        n = K
+        steps += [{"op": "put"} for _ in range(n)]
+        steps.append({"op": "join"})
+        for i in range(n):
+            lab += 1
+            steps.append({"op": "consumer", "c": lab, "g": 0 if rng.random() < 0.9 else 1})
+            if rng.random() < 0.3:
+                steps.append({"op": "run", "n": rng.choice([1, 2, 4])})
+            if i % 50 == 49:
+                steps.append({"op": "idle"})
+        steps.append({"op": "idle"})
+    else:
+        steps += [{"op": "put"} for _ in range(K + 3)]
+        for i in range(K - 1):
+            lab += 1
+            steps += [{"op": "consumer", "c": lab, "g": 0}, {"op": "run", "n": 4}]
+        lab += 1
+        steps.append({"op": "consumer", "c": lab, "g": rng.choice([0, 0, 1])})
+        if off:
+            steps.append({"op": "run", "n": off})
+        steps += [{"op": "cancel", "c": lab}, {"op": "idle"}, {"op": "join"}]
+        for i in range(4):
+            lab += 1
+            steps += [{"op": "consumer", "c": lab, "g": 0}, {"op": "idle"}]
+    return {"prop": "C20", "seed": seed, "config": {"hmask": 0, "maxsize": 0}, "steps": steps, "scale": [K, off, mode]}
+
+
 def units(prop, tier, seed):
     order = itertools.count()
+    for K in (64, 100, 128, 256):
+        for off in range(5):
+            yield ("scale", (K, off, "streak", subseed(seed, prop, "scale", K, off)), next(order))
+    for K in (130, 300, 1030, 1100):
+        yield ("scale", (K, 0, "backlog", subseed(seed, prop, "backlog", K)), next(order))
     if tier == "quick":
         for i in range(QUICK_SWEEPS):
             yield ("sweep", subseed(seed, prop, "sweep", i), next(order))
@@ -66,6 +105,13 @@ def _account(sim, agg, order, kind, sample=True):
 
 def exec_unit(prop, unit, agg):
     kind, seed, order = unit
+    if kind == "scale":
+        K, off, mode, sd = seed
+        sim = QSim(scale_run(K, off, mode, sd))
+        sim.execute()
+        agg.stats["probe:scale_" + mode] += 1
+        _account(sim, agg, order, "scale", sample=False)
+        return
     if kind == "rand":
         _account(gen_run(seed), agg, order, "rand")
         return
